@@ -27,7 +27,7 @@ MAXIT = 2
 def base_ctx(on_call=None, spectrum=None):
     mod = harness_module('h_mssm_conv')
     dem = demangled(mod)
-    ex = executor(mod, RealDom([(0.15, z3.RealVal('3/20'))]), extra_stubs=dict(S.STRING_MODEL_STUBS), fork_select=True)      # 0.15 denotes 3/20
+    ex = executor(mod, RealDom([(0.15, z3.RealVal('3/20')), (0.6, z3.RealVal('3/5'))]), extra_stubs=dict(S.STRING_MODEL_STUBS), fork_select=True)      # decimal literals denote their decimal value
     inner = ext_handler(dem, on_call=on_call)
 
     def handler(ex_, st_, name, args_, I):
@@ -570,6 +570,44 @@ def index_functions(chk):
     chk.absorb_executor(ex)
 
 
+def ml2_formula(chk):
+    """convert_ml2: ml2(2,2) = MSvm_pole^2 - D-term of the sneutrino (so that the sneutrino mass matrix of C04 gives the pole mass)"""
+    fam = 'ml2-closed-form'
+    chk.functions.add('MSSMNoFV_onshell::convert_ml2')
+    mod, dem, ex, st, mp = base_ctx()
+    ex.fork_select = False
+    st, V = probe(ex, st, mp, {'vd': ('vx_par', [3]), 'vu': ('vx_par', [4]), 'g1': ('vx_par', [5]), 'g2': ('vx_par', [6]),
+                               'P': ('vx_MSvmL_pole', [])})
+    ex.fork_select = True
+    V = {k: zr(v) for k, v in V.items()}
+    rr = ex.explore(ex.start('vx_convert_ml2', [mp], st.fork()))
+    n = 0
+    for pi, p in enumerate(rr):
+        if p.outcome[0] != 'ret':
+            continue
+        if any(e[0] == 'call' for e in p.events):
+            pass
+        p.outcome = None
+        p.frames = []
+        p.retval = None
+        q = ex.explore(ex.start('vx_ml2', [mp], p.fork()))
+        got = zr(q[0].retval)
+        gp2 = zr(Fr(3, 5)) * V['g1'] * V['g1']
+        want = V['P'] * V['P'] - (V['g2'] * V['g2'] + gp2) * (V['vd'] * V['vd'] - V['vu'] * V['vu']) / 8
+        # the NaN guard path leaves ml2 untouched; it is infeasible for real inputs
+        r, m = chk.prove('S5:convert_ml2#%d' % pi, list(q[0].pc) + [got != want], family=fam,
+                         sample={'obligation': 'convert_ml2: ml2(2,2) = MSvm_pole^2 - (g2^2 + g\'^2)(vd^2 - vu^2)/8, the inverse of the sneutrino mass '
+                                 'formula verified in C04'})
+        n += 1
+        if r == 'sat':
+            chk.violation('S5:convert_ml2#%d' % pi, 'C05:ml2-formula', 'convert_ml2 does not invert the sneutrino mass formula',
+                          '#!/bin/sh\ncd %s && exec python3-vt -m props.replay_c05 loose\n' % VERIF)
+    if n == 0:
+        chk.record('S5:convert_ml2', 'gap', 'no returning path', family=fam)
+        chk.not_covered.append('convert_ml2 not analysed')
+    chk.absorb_executor(ex)
+
+
 def top_level(chk):
     fam = 'warning-lifetime'
     chk.functions.add('MSSMNoFV_onshell::convert_to_onshell')
@@ -634,8 +672,9 @@ def run(chk):
     ]
     chk.not_covered += ['convergence of the fixed-point iterations and recovery of on-shell parameters from perturbed guesses (numerical '
                         'fixed point of full spectrum calculations: not encodable)', 'the root-finder fallback convert_me2_root_modify (boost toms748)',
-                        'convert_ml2 (closed formula; the sneutrino mass matrix is covered by C04)']
+                        ]
     index_functions(chk)
+    ml2_formula(chk)
     me2_fpi(chk)
     me2_flag(chk)
     mu_m1_m2(chk)
